@@ -4,14 +4,15 @@ Local Open Scope Z_scope.
 
 (* a receiver history with all three signals, errors and successes *)
 Example recv_history :
-  let ops := [{| ro_sig := Traces; ro_n := 7; ro_err := false |}; {| ro_sig := Logs; ro_n := 5; ro_err := true |};
-              {| ro_sig := Metrics; ro_n := 3; ro_err := false |}; {| ro_sig := Traces; ro_n := 2; ro_err := true |}] in
-  vec (recv_run ops) = [7; 2; 3; 0; 0; 5; 0; 0; 0; 0; 0; 0; 0; 0; 0; 0; 0; 0; 0; 0; 0; 0; 0; 0; 0].
-Proof. vm_compute. reflexivity. Qed.
+  let ops := [{| ro_sig := Traces; ro_n := 7; ro_err := false; ro_rec := true |}; {| ro_sig := Logs; ro_n := 5; ro_err := true; ro_rec := false |};
+              {| ro_sig := Metrics; ro_n := 3; ro_err := false; ro_rec := true |}; {| ro_sig := Traces; ro_n := 2; ro_err := true; ro_rec := false |}] in
+  firstn 25 (vec (recv_run ops)) = [7; 2; 3; 0; 0; 5; 0; 0; 0; 0; 0; 0; 0; 0; 0; 0; 0; 0; 0; 0; 0; 0; 0; 0; 0] /\
+  skipn 25 (vec (recv_run ops)) = [7; 0; 3; 0; 0; 0; 0; 0; 0; 0; 0; 0; 0; 0; 0; 0].
+Proof. vm_compute. split; reflexivity. Qed.
 
 (* S5 witness as the probe saw it: 14 log records -> accepted_metric_points = 14 *)
 Example s5_witness_counters :
-  vec (scr_run KLogs s5_witness) = [0; 0; 14; 0; 0; 0; 0; 0; 14; 0; 0; 0; 0; 0; 0; 0; 0; 0; 0; 0; 0; 0; 0; 0; 0].
+  firstn 25 (vec (scr_run false KLogs s5_witness)) = [0; 0; 14; 0; 0; 0; 0; 0; 14; 0; 0; 0; 0; 0; 0; 0; 0; 0; 0; 0; 0; 0; 0; 0; 0].
 Proof. vm_compute. reflexivity. Qed.
 
 (* exporter_balance_partial is not vacuous: a volatile configuration with batching, splitting,
@@ -19,7 +20,7 @@ Proof. vm_compute. reflexivity. Qed.
    the hypotheses and exercises all three counters *)
 Definition opts_demo : eopts :=
   {| o_sig := Metrics; o_queue := true; o_storage := false; o_items_sizer := true; o_cap := 40; o_wfr := false;
-     o_qbatch := Some (10, 15); o_batcher := None; o_retry := true |}.
+     o_qbatch := Some (10, 15); o_batcher := None; o_retry := true; o_tracing := true |}.
 Definition outs_demo : list aout := [ATransient; AOk; APartial 3; APermanent; AOk; AHang; ATransient].
 Definition ops_demo : list eop := [OOffer 7; OOffer 20; OBurst [30; 9; 5]; OFlush; OOffer 12; OOffer 3].
 
@@ -42,10 +43,10 @@ Proof. vm_compute. reflexivity. Qed.
    the fixed cases at the head of harness/C19/exp_test.go) *)
 Example s2_wire :
   fst (model_out (CExp [2;1;1;0;10;0;0;0;0;0;0;0;1] [(4,0)] [(0,[5])] [] [] [])) =
-  [0;0;0;0;0;0;0;0;0;0;0;0;0;0;0;0;0;0;0;0;0;5;0;0;0].
+  [0;0;0;0;0;0;0;0;0;0;0;0;0;0;0;0;0;0;0;0;0;5;0;0;0; 0;0;0;0;0;0;0;0;0;0;0;0;0;0;0;0].
 Proof. vm_compute. reflexivity. Qed.
 
 Example wfr_wire :
   fst (model_out (CExp [2;0;0;0;0;0;0;0;0;1;100;0;0] [(2,0)] [(0,[5])] [] [] [])) =
-  [0;0;0;0;0;0;0;0;0;0;0;0;0;0;0;0;0;0;0;0;0;5;0;0;5].
+  [0;0;0;0;0;0;0;0;0;0;0;0;0;0;0;0;0;0;0;0;0;5;0;0;5; 0;0;0;0;0;0;0;0;0;0;0;0;0;0;0;0].
 Proof. vm_compute. reflexivity. Qed.
